@@ -12,6 +12,7 @@ import json
 import warnings
 
 import numpy as np
+from harness.props.c10_reread import reread_part
 
 from harness.core import exc_class
 
@@ -1283,6 +1284,7 @@ def run(ctx):
     for i in range(ctx.n(200, 4000)):
         label_case(ctx, batch, rng, None, with_h5ad=(i % ctx.n(20, 10) == 0), idx=200000 + i)
     batch.flush()
+    reread_part(ctx)
 
 
 def replay(ctx, rec):
